@@ -150,15 +150,36 @@ func opNames(ops []obsOp) []string {
 	return out
 }
 
+// classBareWord: one defect of the value encoder whatever the statement around the comparison
+// is - its key names the operands (column family, spelling of the constant), not the statement kind.
+const classBareWord = "substituted-constant-not-sent-as-a-constant"
+
+const classIntroducerLost = "binary-introducer-lost-value-not-substituted"
+
 func obsKey(c caseT, feature, class string) string {
 	feature = strings.NewReplacer("/", "-", " ", "-").Replace(feature)
+	if class == classBareWord {
+		return fmt.Sprintf("C13/observers/%s/any-statement/%s/%s", c.Dialect, feature, class)
+	}
 	return fmt.Sprintf("C13/observers/%s/%s/%s/%s", c.Dialect, c.Obs.StmtKind, feature, class)
 }
 
 // featureFor picks the part of the statement that characterises a failure class.
 func featureFor(d *obsDesc, class string) string {
 	switch class {
-	case "operand-altered":
+	case classBareWord:
+		l := strings.TrimPrefix(d.LClass, "col:")
+		switch {
+		case isSearchableClass(l):
+			l = "searchable"
+		case isTokenClass(l):
+			l = "tokenized"
+		}
+		if d.RClass == "value" { // assignment statements
+			return "assigned-to-" + l + "-" + d.Right
+		}
+		return l + "-vs-" + d.Right
+	case "operand-altered", classIntroducerLost:
 		// column classes by family: one defect of the rewrite does not depend on the envelope
 		// or token type of the column
 		fam := func(c string) string {
@@ -246,7 +267,7 @@ func observeOne(col *sqlgen.Collector, env *obsEnv, c caseT) string {
 		return obsClass("changed-flag-same-text")
 	}
 	col.Transitions(1)
-	var diff, shape, class string
+	var diff, shape, class, introCause string
 	if pg {
 		t1, err := pgTree(res.Sent)
 		if err != nil {
@@ -254,6 +275,15 @@ func observeOne(col *sqlgen.Collector, env *obsEnv, c caseT) string {
 				col.Violation(pgDeparseKey(c, "reparse-fails"),
 					fmt.Sprintf("[%s] pg_query's deparser alone (no substitution involved) turns the received statement into a text that %s; the observers changed the statement, so this is what goes to the database: received %q, sent %q", c.Dialect, why, c.SQL, clip(res.Sent, 600)), c)
 				return "reparse-fails-deparser-alone"
+			}
+			if d.RClass == "lit" && isProtectedClass(strings.TrimPrefix(d.LClass, "col:")) {
+				// a protected column compared with a constant, and pg_query alone prints the
+				// statement correctly: the constant was substituted by something that is not the
+				// spelling of a constant. What the text then is (unparsable, a column reference)
+				// depends on the substituted bytes (a random token): one class, one key.
+				col.Violation(obsKey(c, featureFor(d, classBareWord), classBareWord),
+					fmt.Sprintf("[%s] the constant compared with a protected column was replaced by text that is not a constant; the text sent to the database does not parse: received %q, sent %q: %v", c.Dialect, c.SQL, clip(res.Sent, 600), err), c)
+				return classBareWord
 			}
 			col.Violation(obsKey(c, featureFor(d, "reparse-fails"), "reparse-fails"),
 				fmt.Sprintf("[%s] the text sent to the database does not parse: received %q, sent %q: %v", c.Dialect, c.SQL, res.Sent, err), c)
@@ -263,6 +293,11 @@ func observeOne(col *sqlgen.Collector, env *obsEnv, c caseT) string {
 		shape = u.shape()
 		if diff = pgDiff(t0pg, t1, ""); diff != "" {
 			class = pgDiffClass(diff)
+			if strings.Contains(diff, "node type A_Const vs ") {
+				// a constant of the received statement stands in the sent text as a bare word
+				// (read as a column reference, a parameter, ...)
+				class = classBareWord
+			}
 			if why := pgDeparseAlone(c.SQL); why != "" {
 				col.Violation(pgDeparseKey(c, class),
 					fmt.Sprintf("[%s] pg_query's deparser alone (no substitution involved) turns the received statement into a text that %s; the observers changed the statement, so this is what goes to the database: received %q, sent %q; first difference %s", c.Dialect, why, c.SQL, clip(res.Sent, 600), clip(diff, 300)), c)
@@ -281,10 +316,29 @@ func observeOne(col *sqlgen.Collector, env *obsEnv, c caseT) string {
 		shape = u.shape()
 		if diff = sqlgen.Diff(t0, t1, cmpOpts); diff != "" {
 			class = myDiffClass(diff)
+			if myIntroducerLost(t0, t1) {
+				// one defect whatever the statement kind; what differs between defects is why the
+				// statement was re-serialised at all: a value assigned to a protected column was
+				// substituted (another observer's work), another comparison was rewritten, or both
+				class = classIntroducerLost
+				cmp := u.wrapOne + u.wrapBoth + u.opFam + u.cmpLit
+				switch {
+				case u.assignLit > 0 && cmp == 0:
+					introCause = "re-serialised-for-an-assigned-value"
+				case u.assignLit == 0 && cmp > 0:
+					introCause = "re-serialised-for-another-comparison"
+				default:
+					introCause = "re-serialised-for-an-assigned-value-and-another-comparison"
+				}
+			}
 		}
 	}
 	if diff != "" {
-		col.Violation(obsKey(c, featureFor(d, class), class),
+		key := obsKey(c, featureFor(d, class), class)
+		if class == classIntroducerLost {
+			key = fmt.Sprintf("C13/observers/%s/any-statement/%s/%s/%s", c.Dialect, featureFor(d, class), class, introCause)
+		}
+		col.Violation(key,
 			fmt.Sprintf("[%s] the text sent to the database differs from the received statement by more than the documented substitutions: received %q, sent %q; first difference after undoing the permitted substitutions (%s): %s",
 				c.Dialect, c.SQL, clip(res.Sent, 600), shape, clip(diff, 300)), c)
 		return class
